@@ -284,3 +284,45 @@ pub fn micro_cases() -> Vec<(TlSpec, Vec<f32>)> {
     }
     v
 }
+
+/// "Cluster" family: 17 regular keyframes at j/16 plus a cluster of 8 keyframes on consecutive f32 values just above
+/// 1/2 (half an f32::EPSILON apart: closer than any tolerance-based comparison of positions could separate), 25-33
+/// keyframes in all - more than the small-sort threshold of the standard library. Property `a` on every keyframe,
+/// `k` on the cluster. Insertion order by `variant`: 0 ascending; 1 regular grid first, then the cluster descending;
+/// 2 cluster positions interleaved with the grid in a shuffled (stride-7) order; 3 one pass per property (all `a`
+/// keyframes ascending, then separate `k` keyframes on the cluster positions descending).
+pub fn cluster_spec(variant: u8, timing: Timing) -> (TlSpec, Vec<f32>) {
+    let cl: Vec<f32> = (0..8u32).map(|i| f32::from_bits(0.5f32.to_bits() + 1 + i)).collect();
+    let grid: Vec<f32> = (0..=16).map(|j| j as f32 / 16.0).collect();
+    let mut all: Vec<(f32, bool)> = grid.iter().map(|&p| (p, false)).chain(cl.iter().map(|&p| (p, true))).collect();
+    all.sort_by(|x, y| x.0.total_cmp(&y.0));
+    let val = |idx: usize| zig(idx as u32 * 3 + 1);
+    let kval = |idx: usize| (idx as i32 * 53) % 400 - 200;
+    // ascending list with values by rank
+    let asc: Vec<Kf> = all.iter().enumerate().map(|(i, &(p, c))| Kf { pos: p, a: Some(val(i)), k: if c && variant != 3 { Some(kval(i)) } else { None }, d: None, easing: None }).collect();
+    let mut kfs: Vec<Kf> = match variant {
+        0 | 3 => asc.clone(),
+        1 => {
+            let mut v: Vec<Kf> = asc.iter().filter(|k| !cl.contains(&k.pos)).cloned().collect();
+            v.extend(asc.iter().filter(|k| cl.contains(&k.pos)).rev().cloned());
+            v
+        }
+        _ => {
+            let n = asc.len();
+            (0..n).map(|i| asc[(i * 7) % n].clone()).collect()
+        }
+    };
+    if variant == 3 {
+        for (i, &(p, c)) in all.iter().enumerate().rev() {
+            if c {
+                kfs.push(Kf { pos: p, a: None, k: Some(kval(i)), d: None, easing: None });
+            }
+        }
+    }
+    // sample: every cluster position, every grid position and every grid midpoint
+    let mut ts: Vec<f32> = cl.clone();
+    for j in 0..=32 {
+        ts.push(j as f32 / 32.0);
+    }
+    (TlSpec { kfs, default_easing: 0, timing }, ts)
+}
